@@ -51,6 +51,11 @@ impl Prop for C09 {
     }
 
     fn gen(&self, seed: u64, _tier: Tier) -> Value {
+        // a quarter of the runs keep the connection busy with the real notification and
+        // request-response protocols instead of probe user protocols (independent stream)
+        if Rng::fork(seed, "c09-mode").chance(1, 4) {
+            return crate::props::c09b::gen(seed);
+        }
         let mut rng = Rng::fork(seed, "c09-gen");
         let t_ms = *rng.pick(&[1000u64, 2000, 3000, 5000, 10_000, 20_000]);
         let mut knobs = gen_node_knobs(&mut rng);
@@ -104,6 +109,9 @@ impl Prop for C09 {
     }
 
     fn run(&self, case: &Value, verbose: bool) -> RunOutput {
+        if case["mode"] == "builtin" {
+            return crate::props::c09b::run(case, verbose);
+        }
         let case = case.clone();
         let seed = case["seed"].as_u64().unwrap_or(0);
         let sched = SchedKind::from_json(&case["sched"]);
